@@ -600,10 +600,8 @@ def run(case, drv):
         nostops = (not den["stops_present"]) and len(charts) >= 1
         rc = risky_comment(text)
         if not ok:
-            if nostops:
-                kf = "DSM1"
-            elif rc:
-                kf = "DSM2"
+            if rc:
+                kf = "D32"
         dom = in_q and den["stops_present"] and not rc and stream in ("main",)
         if nostops:
             tags.append("no-stops-tag")
